@@ -38,7 +38,9 @@ CHECKS = {
              "exhaustively (2-3 keys x depths 0..2 x 2 payloads, all histories up to length 4/5) that the table always equals the "
              "history-level reference 'last store of maximal depth per key', OnlyStored, LookupFaithful and the action properties "
              "DeepestWins / NoCrossKey. Every behaviour of the bounded model is replayed on the real TranspositionTable under "
-             "adversarial 64-bit key sets; random store/retrieve histories of the real table are validated by TLC (TTTrace.tla). Thorough tier: "
+             "adversarial 64-bit key sets; random store/retrieve histories of the real table are validated by TLC (TTTrace.tla). The table INSIDE the engine: one Searcher runs "
+             "sequences of real searches (deep, shallow, shallow, another position, deep); after each the whole table is joined with the table before it and an entry that "
+             "is still there must not have a smaller depth (TTSearchTrace.tla: DeepestWins across searches). Thorough tier: "
              "TLAPS proves the inductive invariant of TTCore.tla for unbounded histories and arbitrary key / depth / data sets (proofs/TTProof.tla).",
         design_ref="DESIGN.md section 5, C15",
         note="Trusted: TLC; payload (eval, move, bound) treated as opaque text. Exhaustive within the stated constants; longer histories "
